@@ -24,8 +24,12 @@ type Opts struct {
 	MaxQueue  int      `json:"max_queue"`
 	MaxHeight int      `json:"max_height"` // blocks above the prefix
 	NoB       bool     `json:"no_b"`
+	Gap       int      `json:"gap"`  // address gap limit of the instance (default 20)
 	Prod      bool     `json:"prod"` // production consensus constants
-	Prefix    int      `json:"prefix"`
+	// Setup is a fixed event sequence applied (every event must be enabled) before the
+	// explored history: exploration then starts from a non-initial state.
+	Setup  []string `json:"setup"`
+	Prefix int      `json:"prefix"`
 	// Relay adds the C09 alphabet (relayed transactions and the blocks settling them)
 	// and the pending-set oracle.
 	Relay        bool     `json:"relay"`
@@ -125,7 +129,7 @@ func (m *Model) Alphabet() []string {
 func (m *Model) world() (*world.World, string, error) {
 	m.seq++
 	dir := filepath.Join(env.Scratch(), fmt.Sprintf("c01-%d", m.seq))
-	opt := world.Options{NoB: m.O.NoB, Prefix: m.O.Prefix}
+	opt := world.Options{NoB: m.O.NoB, Prefix: m.O.Prefix, Gap: uint32(m.O.Gap)}
 	if m.O.Prod {
 		opt.Cons = env.Prod()
 	}
@@ -219,6 +223,13 @@ func (m *Model) Run(hist []string) *proto.Result {
 		return r
 	}
 	defer w.Close()
+	for i, ev := range m.O.Setup {
+		ok, err := w.Apply(ev)
+		if err != nil || !ok {
+			r.Err = fmt.Sprintf("setup event %d %s: enabled=%v err=%v", i, ev, ok, err)
+			return r
+		}
+	}
 	for i, ev := range hist {
 		ok, err := w.Apply(ev)
 		if err != nil {
@@ -266,6 +277,9 @@ func (m *Model) Run(hist []string) *proto.Result {
 	diffs = append(diffs, pre...)
 	if m.O.Import || m.O.Remove {
 		diffs = append(diffs, w.CheckTasksDone()...)
+	}
+	if m.O.Import {
+		diffs = append(diffs, w.CheckRestoreC()...)
 	}
 	if m.O.Remove {
 		diffs = append(diffs, w.CheckRemoved()...)
